@@ -501,7 +501,7 @@ def holder(h, a):
 
 
 LOCK_ACQUIRE_S = Contract("Lock.acquire", requires=L.ACQUIRE.requires, cases=L.ACQUIRE.cases, bind=L.bind_self, suspends=True)
-LOCK_CONTRACTS = {"Lock.acquire": LOCK_ACQUIRE_S, "Lock.acquire_nowait": L.ACQUIRE_NOWAIT, "Lock.release": L.RELEASE, "Lock.locked": L.LOCKED}
+LOCK_CONTRACTS = {"Lock.acquire": LOCK_ACQUIRE_S, "Lock.acquire_nowait": L.ACQUIRE_NOWAIT, "Lock.release": L.RELEASE, "Lock.locked": L.LOCKED, "Lock.statistics": L.STATISTICS}
 EVENT_CONTRACTS = {"Event.set": EV_SET, "Event.is_set": EV_IS_SET, "Event.wait": EV_WAIT}
 
 
@@ -685,6 +685,24 @@ class CondLocked(CondUnit):
         cases=[Case("pure", when=lambda pre, a: True, ret_ty=BOOL, ensures=lambda pre, post, a, ret: [("reports_truth", ret == (L.owner(pre, clock(pre, a.self)) != 0)), ("unchanged", cond_unchanged(pre, post, a.self))])],
         bind=bind_self,
     )
+
+
+class CondStatistics(CondUnit):
+    """`Condition.statistics()`: tasks_waiting is the length of the waiter queue, the second field is what the lock's
+    own statistics() returned (contract L.STATISTICS; its fields are proved in C09), nothing changes"""
+
+    method = "statistics"
+    contract = None
+    globals = dict(CondUnit.globals, ConditionStatistics=Builtin("ConditionStatistics", lambda ip, *a: tuple(a)))
+
+    def on_exit(self, ip, pre, a, exc, ret):
+        s = a.self
+        ok = exc is None and isinstance(ret, tuple) and len(ret) == 2
+        ip.ctx.oblige("Condition.statistics/post:returns_two_fields", z3.BoolVal(ok), "post")
+        if ok:
+            q = cq(pre, s)
+            ip.ctx.oblige("Condition.statistics/post:reports_the_true_waiter_count", ip.term(ret[0], INT) == q.hi - q.lo, "post")
+            ip.ctx.oblige("Condition.statistics/post:unchanged", cond_unchanged(pre, H(ip.st), s), "post")
 
 
 # ---- notify / notify_all
@@ -943,6 +961,7 @@ UNITS = [
     CondAcquireNowait,
     CondRelease,
     CondLocked,
+    CondStatistics,
     CondNotify,
     CondNotifyAll,
     CondWait,
